@@ -146,6 +146,7 @@ public:
             awaiter *_awt;   //currently registered awaiter
             bool _used;         //this slot is used
             bool _kicked;       //subscriber has been kicked out
+            bool _woken = false;    //its awaiter has been taken out for a wake-up, the value has not been fetched yet
         };
 
         using posreg_t = std::pair<std::size_t, Handle>; //position, index
@@ -167,7 +168,7 @@ public:
             Handle h;
             if (_next_free >= _regs.size()) {
                 h=_regs.size();
-                _regs.push_back({pos, sub,nullptr,true,false});
+                _regs.push_back({pos, sub,nullptr,true,false,false});
                 _next_free = _regs.size();
             } else {
                 h = _next_free;
@@ -178,6 +179,7 @@ public:
                 l._pos = pos;
                 l._used = true;
                 l._kicked = false;
+                l._woken = false;
             }
             return h;
         }
@@ -186,9 +188,10 @@ public:
             return r;
         }
         Handle subscribe_lk(Handle h, const subscriber<T> *sub) {
-            //a parked subscriber already points to the value it is waiting for
+            //a parked subscriber - and one that has been woken up but has not fetched the value yet -
+            //already points to the value it is waiting for
             const subreg_t &o = _regs[h];
-            auto r = subscribe_lk(sub, o._awt?o._pos-1:o._pos);
+            auto r = subscribe_lk(sub, (o._awt || o._woken)?o._pos-1:o._pos);
             return r;
         }
 
@@ -234,6 +237,7 @@ public:
         }
         std::optional<T> get_value_lk(Handle h, subscribtion_type type) {
             subreg_t &l = _regs[h];
+            l._woken = false;
             if (l._kicked || l._pos >= _pos) return {};
             switch (type) {
                 default:
@@ -272,6 +276,7 @@ public:
                      if (x._awt) {
                          _wakeup_buffer.push_back(x._awt);
                          x._awt = nullptr;
+                         x._woken = true;
                      }
                      need_len = std::max(need_len, _pos - x._pos);
                  }
